@@ -237,6 +237,27 @@ class Ctx:
         self._push(term == v)
         return v
 
+    def choose_fresh(self, name, n):
+        """Enumerated choice in range(n) for a *fresh* variable: every value is feasible by
+        construction, so the fork needs no query.  The decision is still recorded in the path
+        condition (so counterexample models contain it)."""
+        term = z3.Int(name)
+        if self.pos < len(self.script):
+            v = self.script[self.pos]
+            self.pos += 1
+            if isinstance(v, bool) or not isinstance(v, int):
+                raise EngineLimit('non-deterministic replay (int expected)')
+        else:
+            ex = self.ex
+            for other in range(n - 1, 0, -1):
+                ex.todo.append(self.script + [other])
+                ex.stats['forks'] += 1
+            v = 0
+            self.script.append(v)
+            self.pos += 1
+        self._push(term == v)
+        return v
+
     def assume(self, cond):
         if isinstance(cond, SymBool):
             cond = cond.t
@@ -330,6 +351,7 @@ class Explorer:
                           obligations=0, discharged=0, unknown=0, exec_s=0.0)
         self.violations = []
         self.samples = []
+        self.state_set = set()
         self._nontrivial_samples = 0
         self.inconclusive = []
         self.expect_exceptions = expect_exceptions
@@ -395,6 +417,8 @@ class Explorer:
             finally:
                 self.solver.pop()
         self.stats['wall_s'] = time.time() - t_start
+        if self.state_set:
+            self.stats['states'] = len(self.state_set)
         return self
 
     def _discharge(self, ctx):
